@@ -113,7 +113,25 @@ type KMapV struct {
 }
 type KMap struct{ M KMapV }
 
+// containers two levels deep over a struct with a tuple representation and an optional field
+type DeepVals struct {
+	Keys   []string
+	Values map[string][]Inner
+}
+type OptT struct {
+	A int64
+	O *string
+}
+type Deep struct {
+	M  DeepVals
+	LL [][]Inner
+	LO [][]OptT
+}
+
 const schemaText = `
+type DeepVals {String:[Inner]}
+type OptT struct { A Int  O optional String } representation tuple
+type Deep struct { M DeepVals  LL [[Inner]]  LO [[OptT]] }
 type KS struct { A String  B String } representation stringjoin { join ":" }
 type KMapV {KS:Int}
 type KMap struct { M KMapV }
@@ -326,6 +344,56 @@ var Vocabulary = []Entry{
 				m.M = append(m.M, ref.E(k.A+":"+k.B, ref.Int(x.M.Values[k])))
 			}
 			return ref.Map(ref.E("M", m))
+		}},
+	{Name: "Deep", New: func() interface{} { return &Deep{} },
+		Values: func() []interface{} {
+			mk := func(keys []string, ll [][]Inner, lo [][]OptT) *Deep {
+				d := &Deep{LL: ll, LO: lo}
+				d.M.Keys = keys
+				d.M.Values = map[string][]Inner{}
+				for i, k := range keys {
+					d.M.Values[k] = []Inner{{int64(i), k}, {7, "x"}}[:i%3]
+				}
+				return d
+			}
+			return []interface{}{
+				mk([]string{}, [][]Inner{}, [][]OptT{}),
+				mk([]string{"a"}, [][]Inner{{}}, [][]OptT{{}}),
+				mk([]string{"a", "b"}, [][]Inner{{{1, "p"}}}, [][]OptT{{{1, nil}}}),
+				mk([]string{"b", "a", "c"}, [][]Inner{{{1, "p"}, {2, "q"}}, {}, {{3, ""}}}, [][]OptT{{{1, strp("s")}, {2, nil}}, {{3, strp("")}}}),
+			}
+		},
+		View: func(v interface{}) ref.Val {
+			x := v.(*Deep)
+			m := ref.Map()
+			for _, k := range x.M.Keys {
+				l := ref.List()
+				for _, in := range x.M.Values[k] {
+					l.L = append(l.L, innerView(in))
+				}
+				m.M = append(m.M, ref.E(k, l))
+			}
+			ll := ref.List()
+			for _, row := range x.LL {
+				l := ref.List()
+				for _, in := range row {
+					l.L = append(l.L, innerView(in))
+				}
+				ll.L = append(ll.L, l)
+			}
+			lo := ref.List()
+			for _, row := range x.LO {
+				l := ref.List()
+				for _, o := range row {
+					ov := ref.Absent()
+					if o.O != nil {
+						ov = ref.Str(*o.O)
+					}
+					l.L = append(l.L, ref.Map(ref.E("A", ref.Int(o.A)), ref.E("O", ov)))
+				}
+				lo.L = append(lo.L, l)
+			}
+			return ref.Map(ref.E("M", m), ref.E("LL", ll), ref.E("LO", lo))
 		}},
 	{Name: "HasUnion", New: func() interface{} { return &HasUnion{} },
 		Values: func() []interface{} {
